@@ -411,8 +411,8 @@ let explore cap u maxstates depth prefix flavor =
     Hashtbl.add seen (ident (flatten_fast b0)) ();
     Queue.add (b0, path0, sid0) q;
     let nh = ref 0 and nstates = ref 1 and truncated = ref false and maxh = ref 0 in
-    let probes = Printf.sprintf "V\nQ\nL\nFL\nIT items,fast,keys 0:%d 1:%d 2:%d\nRG I %d E %d\nRG E %d I %d\nIR %d %d\n"
-        (u + 2) (u + 2) (u + 2) (u / 3) (u - 1) (u / 4) (u / 2) (u / 2) u in
+    let probes = Printf.sprintf "V\nQ\nL\nFL\nIT items,fast,keys,values 0:%d 1:%d 2:%d 3:%d\nSL\n"
+        (u + 2) (u + 2) (u + 2) (u + 2) in
     let tag = Printf.sprintf "x%s%d.%d.%s.%d" (if flavor = "basic" then "" else flavor) cap u (String.concat "" (String.split_on_char ':' prefix)) depth in
     while not (Queue.is_empty q) do
       let (b, path_rev, sid) = Queue.pop q in
@@ -434,7 +434,17 @@ let explore cap u maxstates depth prefix flavor =
             | _, true -> OInsert (key_of k sid, z_of_int (sid * 10))
             | _, false -> ORemove (z_of_int k) in
           let (b', out) = step b op in
-          pr "H %s.%d rust cap=%d dump=%d\n%s%s\nG %d\n%s" tag !nh cap (plen + 1) path line k probes;
+          (* range probes vary with the history number: all 9 bound-kind pairs, endpoints sweeping -1..u
+             (below the minimum, present and absent keys, above the maximum), inverted intervals included *)
+          let kinds = [| "I"; "E"; "U" |] in
+          let n = !nh in
+          let ep j = ((n * 7 + j * 3) mod (u + 2)) - 1 in
+          let rprobes = Printf.sprintf "RG %s %d %s %d\nRG E %d %s %d\nIR %d %d\nFP %d %d %s %d\n"
+              kinds.(n mod 3) (ep 0) kinds.((n / 3) mod 3) (ep 1)
+              k kinds.((n / 9) mod 3) (ep 2)
+              (ep 3) (ep 4)
+              (n mod 3) ((n / 3) mod 4) kinds.((n / 12) mod 3) (ep 5) in
+          pr "H %s.%d rust cap=%d dump=%d\n%s%s\nG %d\n%s%s" tag !nh cap (plen + 1) path line k probes rprobes;
           incr nh;
           (match out with
            | UPanic | UFuel | UUB -> ()
